@@ -2,12 +2,12 @@ package main
 
 import (
 	"bytes"
-	"os/exec"
 	"encoding/json"
 	"fmt"
 	"github.com/zmap/zlint/v3/formattedoutput"
 	"math/rand"
 	"os"
+	"os/exec"
 	"reflect"
 	"regexp"
 	"strings"
